@@ -108,7 +108,7 @@ NSIG = len(SIGS)
 OROLES = ["function", "method", "static", "constructor"]
 
 
-def check_overloads(role, i, j, k, nsdepth):
+def check_overloads(role, i, j, k, nsdepth, pattern=0):
     nss = ("top", "mid")[:nsdepth]
     sigs = [SIGS[i], SIGS[j], SIGS[k]]
     d = ms.decode_class(6, 0, None)                          # a class with one constructor and nothing else
@@ -122,9 +122,13 @@ def check_overloads(role, i, j, k, nsdepth):
     else:
         d["ctors"] = list(sigs)
     d["serialize"] = False
-    # a second entity after the group: ids that follow a dropped or doubled overload shift
+    # a second entity after (pattern 0) or between the overloads (1: f g f f, 2: f f g f): ids that follow a dropped or
+    # doubled overload shift, and overloads that are not adjacent in the file still belong to one function
     tail = [("int", "after", [("double", "z", None)])]
-    inner = ms.render_class(d, False) + " " + ms.render_functions(funcs + tail)
+    seq = funcs + tail
+    if role == "function" and pattern:
+        seq = funcs[:pattern] + tail + funcs[pattern:]
+    inner = ms.render_class(d, False) + " " + ms.render_functions(seq)
     text = ms.PRELUDE + "".join("namespace %s { " % x for x in nss) + inner + " }" * len(nss)
     files, cpp = ms.run_toolbox(text)
     problems = ms.check_dispatch(files, cpp, [d], nss, funcs + tail, False)
@@ -145,7 +149,7 @@ def c05_overload_groups(role: int, i: int, j: int, k: int, nsdepth: int) -> bool
     role, i, j, k = pick(role, 0, 4), pick(i, 0, NSIG), pick(j, 0, NSIG), pick(k, 0, NSIG)
     nsdepth = pick(nsdepth, 0, 3) if THOROUGH else (i + j + k + role) % 3
     with concrete():
-        ok = check_overloads(OROLES[role], i, j, k, nsdepth)
+        ok = check_overloads(OROLES[role], i, j, k, nsdepth, (i + 2 * j + k) % 3)
     reached({"role": OROLES[role], "sigs": [i, j, k]} if (not ok or (role == 0 and (i, j, k) == (2, 0, 3))) else None)
     return ok
 
@@ -226,7 +230,7 @@ def conds(tier):
     return [
         xh.Cond(M, "c05_one_class", t(420, 3000), path_timeout=60, kind="shape-bounded", examples=["code=101, boost=1, ser=1, nsdepth=1", "code=383, boost=0, ser=0, nsdepth=2"],
                 bounds="all %d class shapes%s" % (NC, " x both serialization settings x serialize marker (namespace depth derived)" if not q else "; serialization / marker / namespace depth derived from the shape code")),
-        xh.Cond(M, "c05_overload_groups", t(420, 1800), path_timeout=60, kind="shape-bounded", examples=["role=0, i=2, j=0, k=3, nsdepth=0", "role=0, i=0, j=1, k=3, nsdepth=0", "role=1, i=0, j=1, k=4, nsdepth=1", "role=3, i=5, j=2, k=6, nsdepth=2", "role=2, i=6, j=1, k=0, nsdepth=0"],
+        xh.Cond(M, "c05_overload_groups", t(420, 1800), path_timeout=60, kind="shape-bounded", examples=["role=0, i=2, j=0, k=3, nsdepth=0", "role=0, i=0, j=1, k=3, nsdepth=0", "role=0, i=3, j=4, k=5, nsdepth=1", "role=0, i=1, j=3, k=5, nsdepth=0", "role=1, i=0, j=1, k=4, nsdepth=1", "role=3, i=5, j=2, k=6, nsdepth=2", "role=2, i=6, j=1, k=0, nsdepth=0"],
                 bounds="4 roles x %s ordered triples of 7 parameter lists (same-guard pairs included)%s" % ("all" if not q else "every second of the", " x namespace depth 0-2" if not q else "; namespace depth derived")),
         xh.Cond(M, "c05_same_leaf", t(300, 1800), path_timeout=60, kind="shape-bounded", examples=["a=3, b=4, layout=2, virt=1, derive=0", "a=1, b=1, layout=0, virt=1, derive=1", "a=7, b=2, layout=3, virt=0, derive=0"],
                 bounds="%s class-shape pairs under one unqualified name x 4 namespace layouts x virtual x derived" % ("%d x %d" % (NREP, NREP) if not q else "%d (second derived)" % NREP)),
